@@ -22,7 +22,7 @@ PROPS = {
                      "carry dependence, switch, mask, mix, dimap) N keys are simulated in one vmap; TLC enumerates the support "
                      "from Exec, checks every observed assignment is in it, every support cell's frequency is within the "
                      "Hoeffding bound (delta=1e-12 over all cells), the counts total N, the spec's probabilities sum to 1, and "
-                     "the same keys reproduce the same traces (also through propose).",
+                     "the same keys reproduce the same traces (also through propose). Two further programs (repeat / vmap of a switch) are sampled through an UPDATE that changes every element's branch index: the redrawn elements must be independent draws (joint cells within the bound).",
                 note="Detects deviations >= ~0.065 (quick) / ~0.03 (thorough) in a cell probability (key reuse between sites or "
                      "iterations moves cells by >= 0.125). Continuous programs' moments are not covered."),
 }
